@@ -6,8 +6,8 @@ from pyvc.values import *  # noqa
 from pyvc import ghost
 
 ROUNDTRIP = ['Padded', 'Aligned', 'FixedSized', 'Prefixed', 'Const', 'Flag', 'Bytes', 'GreedyBytes', 'BytesInteger', 'BitsInteger', 'Default', 'IfThenElse', 'Switch', 'Rebuild', 'Computed', 'Pass', 'VarInt', 'ZigZag']
-SIZED = ['Padded', 'Aligned', 'FixedSized', 'Prefixed', 'Const', 'Flag', 'Bytes', 'BytesInteger', 'BitsInteger', 'FormatField', 'IfThenElse', 'Default', 'Switch', 'Rebuild', 'Computed', 'Pass', 'Tell', 'Index']
-CANONICAL = ['Padded', 'Aligned', 'FixedSized', 'Prefixed', 'Const', 'Flag', 'Bytes', 'GreedyBytes', 'BytesInteger', 'IfThenElse', 'Switch', 'Computed', 'Pass', 'VarInt']
+SIZED = ['Padded', 'Aligned', 'FixedSized', 'Prefixed', 'Const', 'Flag', 'Bytes', 'BytesInteger', 'BitsInteger', 'FormatField', 'IfThenElse', 'Default', 'Switch', 'Rebuild', 'Computed', 'Pass', 'Tell', 'Index', 'Peek', 'Check', 'Checksum', 'Transformed', 'Hex', 'Enum', 'Mapping', 'FlagsEnum']
+CANONICAL = ['Padded', 'Aligned', 'FixedSized', 'Prefixed', 'Const', 'Flag', 'Bytes', 'GreedyBytes', 'BytesInteger', 'BitsInteger', 'IfThenElse', 'Switch', 'Computed', 'Pass', 'VarInt']
 
 GREEDY = {'GreedyBytes'}
 FMT = [e + f for e in '<>=' for f in 'BHLQbhlq?']
@@ -141,7 +141,9 @@ def _lazyarray_domain(eng, st):
 
 
 DOMAIN['LazyArray'] = _lazyarray_domain
-HYPOTHESES += ['C16 only - no cross references: parsing an element and asking its actual size give the same answers in every scope',
+HYPOTHESES += ['C02, BitsInteger only - the input is a stream of bits (every byte 0 or 1, as inside Bitwise) and the field is not byte-swapped',
+               'C01, Sequence only - no member refuses to build with StopFieldError (a StopIf inside the member list ends the build early; whether the shortened output parses back depends on the condition the user wrote)',
+               'C16 only - no cross references: parsing an element and asking its actual size give the same answers in every scope',
                'C16 only - measured is parsed: when _actualsize answers n and the parse succeeds, the parse advances by exactly n',
                'C16 only - measurable or says so: an element that parses either answers _actualsize or raises SizeofError']
 from . import lazylemmas as _lzl  # noqa
